@@ -225,6 +225,12 @@ func dependsOn(p *px.Path, s, target *px.Sym) bool {
 		if rec(s.X, d+1) || rec(s.Y, d+1) {
 			return true
 		}
+		if s.Kind == px.KAlloc {
+			// a local cell: follow the value it holds at the end of the path
+			if v := p.CellValue(s); v != nil && rec(v, d+1) {
+				return true
+			}
+		}
 		for _, o := range s.Ops {
 			if rec(o, d+1) {
 				return true
